@@ -49,6 +49,11 @@ func refMode(mode string) refwkb.Mode {
 }
 
 func genBase(t *rapid.T, mode string) (*model.G, []byte, []refwkb.Field) {
+	g, b, f, _ := genBaseH(t, mode)
+	return g, b, f
+}
+
+func genBaseH(t *rapid.T, mode string) (*model.G, []byte, []refwkb.Field, []int) {
 	o := gen.TreeOpts{
 		Layouts: gen.Layouts4, Floats: gen.SmallInt | gen.CanonNaN | gen.Infs, MaxDepth: 3, MaxParts: 3, MaxPts: 4,
 		MixLayouts: rapid.Bool().Draw(t, "mix"), FixEmptyCollections: true, PEmpty: 20,
@@ -60,12 +65,19 @@ func genBase(t *rapid.T, mode string) (*model.G, []byte, []refwkb.Field) {
 		o.NoEmptyPoint = true
 	}
 	g := gen.Tree(t, o)
-	data, fields, err := refwkb.Encode(g, rapid.Bool().Draw(t, "xdr"), refMode(mode))
+	data, fields, tw, err := refwkb.EncodeWithHeaders(g, rapid.Bool().Draw(t, "xdr"), refMode(mode))
 	if err != nil {
 		// NoLayout etc. cannot happen with these options
 		panic(err)
 	}
-	return g, data, fields
+	return g, data, fields, tw
+}
+
+func get32(data []byte, off int) uint32 {
+	if data[0] == 0 {
+		return binary.BigEndian.Uint32(data[off:])
+	}
+	return binary.LittleEndian.Uint32(data[off:])
 }
 
 func put32(data []byte, off int, v uint32) {
@@ -83,7 +95,7 @@ func put32(data []byte, off int, v uint32) {
 func genCase(t *rapid.T) Case {
 	mode := rapid.SampledFrom([]string{"ewkb", "wkb-nan", "wkb-err"}).Draw(t, "mode")
 	class := rapid.SampledFrom([]string{"forgery", "forgery", "mutant", "mutant", "mutant", "valid", "splice"}).Draw(t, "class")
-	_, data, fields := genBase(t, mode)
+	_, data, fields, typeWords := genBaseH(t, mode)
 	c := Case{Class: class, Mode: mode}
 	limitSet := []int{0, 1, 3, 64, 4096}
 	switch rapid.IntRange(0, 5).Draw(t, "limitclass") {
@@ -122,7 +134,20 @@ func genCase(t *rapid.T) Case {
 		c.FOffset, c.FLevel, c.FValue = f.Offset, f.Level, v
 	case "mutant":
 		for m := rapid.IntRange(1, 3).Draw(t, "nmut"); m > 0 && len(data) > 0; m-- {
-			switch rapid.IntRange(0, 6).Draw(t, "mut") {
+			switch rapid.IntRange(0, 8).Draw(t, "mut") {
+			case 7, 8: // change the dimension flags / code or the type id of one (member) header
+				if len(typeWords) > 0 {
+					off := typeWords[rapid.IntRange(0, len(typeWords)-1).Draw(t, "header")]
+					if off+4 <= len(data) {
+						v := get32(data, off)
+						if mode == "ewkb" {
+							v ^= rapid.SampledFrom([]uint32{0x80000000, 0x40000000, 0xC0000000, 0x20000000, 1, 2, 3, 7}).Draw(t, "flip")
+						} else {
+							v = uint32(int64(v) + rapid.SampledFrom([]int64{1000, -1000, 2000, 1, -1, 3}).Draw(t, "delta"))
+						}
+						put32(data, off, v)
+					}
+				}
 			case 0: // truncate
 				data = data[:rapid.IntRange(0, len(data)-1).Draw(t, "cut")]
 			case 1: // bit flip
